@@ -263,9 +263,10 @@ def _run_bigfit(case, ctx, st):
     from gemclus.tree import Kauri
     i = case["i"]
     rng = gen.rng_for(case["seed"], ID, "bigfit", i)
-    n, d = int(rng.integers(90, 171)), int(rng.integers(1, 4))
+    over64 = i % 2 == 0          # every other long fit asks for more than 64 clusters
+    n, d = (int(rng.integers(130, 171)) if over64 else int(rng.integers(90, 171))), int(rng.integers(1, 4))
     X = gen.make_data(rng, n, d, "blobs", centers=int(rng.integers(3, 12)))
-    K = int(rng.integers(34, max(36, int(0.6 * n))))
+    K = int(rng.integers(66, 81)) if over64 else int(rng.integers(34, max(36, int(0.6 * n))))
     params = {"max_clusters": K, "kernel": ["rbf", "linear", "laplacian", "poly"][int(rng.integers(0, 4))],
               "random_state": gen.subseed(rng) % 100000}
     if rng.random() < 0.3:
